@@ -23,6 +23,7 @@ from .values import (
     to_number,
     to_string,
     js_typeof,
+    normalize_number,
 )
 from .errors import (
     JSError,
@@ -411,7 +412,7 @@ class VM:
         elif op == OpCode.SUB:
             b = self.stack.pop()
             a = self.stack.pop()
-            self.stack.append(to_number(a) - to_number(b))
+            self.stack.append(normalize_number(to_number(a) - to_number(b)))
 
         elif op == OpCode.MUL:
             b = self.stack.pop()
@@ -750,11 +751,11 @@ class VM:
         # Increment/Decrement
         elif op == OpCode.INC:
             a = self.stack.pop()
-            self.stack.append(to_number(a) + 1)
+            self.stack.append(normalize_number(to_number(a) + 1))
 
         elif op == OpCode.DEC:
             a = self.stack.pop()
-            self.stack.append(to_number(a) - 1)
+            self.stack.append(normalize_number(to_number(a) - 1))
 
         # Closures
         elif op == OpCode.MAKE_CLOSURE:
@@ -863,7 +864,7 @@ class VM:
         if isinstance(a, str) or isinstance(b, str):
             return to_string(a) + to_string(b)
         # Numeric addition
-        return to_number(a) + to_number(b)
+        return normalize_number(to_number(a) + to_number(b))
 
     def _pow(self, base: Union[int, float], exp: Union[int, float]) -> float:
         """JavaScript ** operator (Number::exponentiate) on IEEE doubles.
